@@ -537,6 +537,9 @@ def origins(fn, operand, extra_identity=(), through_clone=False, through_casts=F
                 if suffix[:len(dp)] == dp:
                     out.append(Origin('call', bb=bb, term=t, suffix=suffix[len(dp):], steps=list(_steps)))
                 continue
+            # the early return of `?` builds an Err / None: it can never be the source of an Ok / Some payload
+            if suffix[:1] in (['as Ok'], ['as Some']) and call_matches(t, ['core::ops::try_trait::FromResidual::from_residual']):
+                continue
             # `expr?`: the Continue payload is the Ok/Some payload of the operand
             if suffix[:2] == ['as Continue', '.0'] and call_matches(t, ['core::ops::try_trait::Try::branch']):
                 out += origins(fn, t['args'][0], extra_identity, through_clone, through_casts, _seen,
